@@ -116,8 +116,8 @@ def gen_targets(cs, quick):
         if quick:
             for pos in range(3):
                 for full_ans in single:
-                    for o1 in single_red:
-                        for o2 in single_red:
+                    for o1 in single_red[:6]:
+                        for o2 in single_red[:6]:
                             al = [o1, o2]
                             al.insert(pos, full_ans)
                             cs.add(pre + ' '.join(names), [up_ok()] + al, 'targets', targets=(act, names, al))
@@ -156,11 +156,11 @@ def gen_simple_names(cs, quick):
             cs.add('%s g:*' % act, pre + [a1], 'names')
             for a2 in full:
                 cs.add('%s a b' % act, pre + [a1, a2], 'names')
-        pool = redl if quick else full
+        pool = redl[:6] if quick else full
         for pos in range(3):
             for fa in full:
                 for o1 in pool:
-                    for o2 in (redl[:5] if quick else pool):
+                    for o2 in (redl[:4] if quick else pool):
                         al = [o1, o2]
                         al.insert(pos, fa)
                         cs.add('%s a b c' % act, pre + al, 'names')
@@ -430,7 +430,7 @@ def gen_random(cs, chk, n):
 # ------------------------------------------------------------------ running
 
 def run_cases(chk, cases, wd):
-    import c20_ctl as H
+    import c20_proxy as H
     enc = H.enc_warning()
     terms, metas = [], []
     mon_terms, mon_metas = [], []
@@ -547,13 +547,8 @@ def build_cases(chk):
     gen_single_call(cs, quick)
     gen_server_states(cs, quick)
     n_exh = len(cs.cases)
-    gen_random(cs, chk, 4000 if quick else 60000)
+    gen_random(cs, chk, 3000 if quick else 60000)
     return cs.cases, n_exh
-
-
-def _gen():
-    import c20_ctl as G   # gen/c20_ctl.py (the harness module of the same name lives in harness/)
-    return G
 
 
 def _generator():
@@ -582,7 +577,7 @@ def _run(chk, wd, proved, only):
         cases, n_exh = build_cases(chk)
     terms, metas, mon_terms, mon_metas, distinct, stat_terms, stat_metas = run_cases(chk, cases, wd)
     # 1. model against implementation
-    import c20_ctl as H
+    import c20_proxy as H
     bad, errs = H.compare(vlib, IMPORTS, 'ctl_case', 'check_case', terms, wd, 'corr', PREAMBLE)
     for e in errs:
         chk.violation({'kind': 'model evaluation failed', 'error': e}, nofail=True)
@@ -645,7 +640,7 @@ def _run(chk, wd, proved, only):
                    'then %d random command lines against a typed random responder (valid and hostile streams). distinct = distinct '
                    '(action, kinds of printed lines, exit status, number of RPC calls) with at least one printed line or a non-zero '
                    'status' % (n_exh, len(UNKNOWN_CODES),
-                               'one position full x 8 representative codes elsewhere' if chk.tier == 'quick' else 'full cube',
+                               'one position full x 5 representative codes elsewhere' if chk.tier == 'quick' else 'full cube',
                                len(INFO_SETS), len(terms) - n_exh if only is None else 0))
     cov['samples'] = [{k: m[k] for k in ('line', 'script', 'printed', 'exitstatus')} for m in metas[:1] + metas[2000:2002] + metas[-2:]]
     cov['monitor_cases'] = len(mon_terms) + len(stat_terms)
